@@ -637,7 +637,16 @@ pub fn device_layout(v: &Value, position: usize) -> Result<DeviceLayout, String>
 
     // FMMU usage
     if coe {
-        desc.fmmu_usage = if get_str(v, "fmmus", "single") == "per_sm" {
+        let explicit = get_str(v, "fmmus", "single")
+            .split_once(',')
+            .and_then(|(a, b)| Some((a.trim().parse::<usize>().ok()?, b.trim().parse::<usize>().ok()?)));
+        desc.fmmu_usage = if let Some((n_out, n_in)) = explicit {
+            // "fmmus": "<outputs>,<inputs>": that many FMMUs per direction, outputs first
+            let mut u = vec![fmmu_usage::OUTPUTS; n_out];
+            u.extend(std::iter::repeat_n(fmmu_usage::INPUTS, n_in));
+            u.push(fmmu_usage::SM_STATUS);
+            u
+        } else if get_str(v, "fmmus", "single") == "per_sm" {
             // one FMMU per process data sync manager, outputs first
             let mut u = vec![fmmu_usage::OUTPUTS; out_sms.len().max(1)];
             u.extend(std::iter::repeat_n(fmmu_usage::INPUTS, in_sms.len().max(1)));
